@@ -49,6 +49,19 @@ func init() {
 			Quick: 60, Thorough: 2000})
 	}
 
+	for _, sg := range structGensRedis {
+		sg := sg
+		registry["C10"] = append(registry["C10"], Suite{Name: sg.name, NewMachine: sg.mk, Gen: genPersist(sg, "C10"),
+			Monitors: []Monitor{monitorPersist(sg, "C10")}, OpName: sg.opName,
+			Rule: "reachable Redis-backed state, export, import under new keys into a dirty target, Equals, paired queries, further common updates", Quick: 40, Thorough: 1000})
+		registry["C09"] = append(registry["C09"], Suite{Name: sg.name, NewMachine: sg.mk, Gen: genC09(sg),
+			Monitors: []Monitor{monitorPersist(sg, "C09")}, OpName: sg.opName,
+			Rule: "history through the creating handle, re-attachment by metadata key at a random point (also after an import under new keys), operations through either handle, paired queries after each", Quick: 60, Thorough: 1500})
+		registry["C17"] = append(registry["C17"], Suite{Name: sg.name, NewMachine: sg.mk, Gen: genC17(sg),
+			Monitors: []Monitor{monitorPersist(sg, "C17")}, OpName: sg.opName,
+			Rule: "twin or unrelated Redis-backed pairs, Equals both ways, paired queries", Quick: 40, Thorough: 1000})
+	}
+
 	registry["C01"] = []Suite{
 		{Name: "bloom-mem", NewMachine: func() Machine { return &withCodec{genericMachine: &bloomMem{}} }, Gen: genC01,
 			Monitors: []Monitor{monitorBloom("mem")}, OpName: bloomOpName,
@@ -76,6 +89,10 @@ func init() {
 			Nontrivial: cmsNontrivial, Rule: "history with >=2 distinct updated elements sharing at least one cell (collision) or a single-element history; distinct by SHA-1 of the case",
 			Quick: 300, Thorough: 6000},
 	}
+	machineByID[2] = func() Machine { return &cmsRedis{} }
+	registry["C03"] = append(registry["C03"], Suite{Name: "cms-redis", NewMachine: func() Machine { return &cmsRedis{} }, Gen: genC03,
+		Monitors: []Monitor{monitorCMS("redis", "C03")}, OpName: cmsOpName, Nontrivial: cmsNontrivial,
+		Rule: "as cms-mem, against the Redis-backed sketch on miniredis", Quick: 150, Thorough: 3000})
 	registry["C12"] = []Suite{
 		{Name: "cms-mem", NewMachine: func() Machine { return &withCodec{genericMachine: &cmsMem{}} }, Gen: genC12,
 			Monitors: []Monitor{monitorCMS("mem", "C12")}, OpName: cmsOpName,
@@ -88,6 +105,9 @@ func init() {
 				return false
 			}, Rule: "case contains at least one successful merge; distinct by SHA-1 of the case",
 			Quick: 300, Thorough: 6000},
+		{Name: "cms-redis", NewMachine: func() Machine { return &cmsRedis{} }, Gen: genC12,
+			Monitors: []Monitor{monitorCMS("redis", "C12")}, OpName: cmsOpName,
+			Rule: "as cms-mem, against the Redis-backed sketch on miniredis", Quick: 150, Thorough: 3000},
 	}
 }
 
